@@ -7,6 +7,29 @@ use std::future::Future;
 use std::pin::Pin;
 use std::task::{Context, Poll, RawWaker, RawWakerVTable, Waker};
 
+// ---- allocation counting (C14): every client binary counts its heap allocations ----
+pub struct CountingAlloc;
+static ALLOCS: ::std::sync::atomic::AtomicU64 = ::std::sync::atomic::AtomicU64::new(0);
+unsafe impl ::std::alloc::GlobalAlloc for CountingAlloc {
+    unsafe fn alloc(&self, layout: ::std::alloc::Layout) -> *mut u8 {
+        ALLOCS.fetch_add(1, ::std::sync::atomic::Ordering::Relaxed);
+        ::std::alloc::System.alloc(layout)
+    }
+    unsafe fn dealloc(&self, ptr: *mut u8, layout: ::std::alloc::Layout) {
+        ::std::alloc::System.dealloc(ptr, layout)
+    }
+    unsafe fn realloc(&self, ptr: *mut u8, layout: ::std::alloc::Layout, new_size: usize) -> *mut u8 {
+        ALLOCS.fetch_add(1, ::std::sync::atomic::Ordering::Relaxed);
+        ::std::alloc::System.realloc(ptr, layout, new_size)
+    }
+}
+#[global_allocator]
+static GLOBAL: CountingAlloc = CountingAlloc;
+/// number of heap allocations (alloc + realloc) performed by this process so far
+pub fn allocs() -> u64 {
+    ALLOCS.load(::std::sync::atomic::Ordering::Relaxed)
+}
+
 thread_local! {
     static TRACE: RefCell<Vec<String>> = const { RefCell::new(Vec::new()) };
 }
